@@ -64,6 +64,9 @@ CHECKS = {
  "C20": ("exploration", "runtime monitor: repeated runs of each program in fresh interpreters at different positions of a process and in fresh processes; all observations (value, stdout, error text) must be identical",
          "Hand-written programs around every map-walking conversion, the script corpus without file/time/random features and generated programs are each evaluated 8 (quick) / 20 (thorough) times in one process as the 1st..4th interpreter after unrelated interpreters, and in 2 / 5 fresh processes (new map iteration seeds); printed value, captured stdout and full error text are compared after normalising pointers and Go stack traces.",
          "Determinism is observed, not proved: an order-dependence that shows up with probability p per run is caught with probability 1-(1-p)^(N+M-1); one recorded finding (script-declared types leak into later interpreters through the process-global registry).", "DESIGN.md §4.C20"),
+ "C01": ("exploration", "runtime monitor: recover() escape boundary around every script-facing entry point, child-process death attribution through journals, (nil,nil) and unprintable results, VM step budget and watchdog; hostile inputs enumerated and mutated",
+         "Every 1-2 (quick) / 1-3 (thorough) token string over a 103-token alphabet, every special form and bound name with 0-4 hostile arguments, mutations of the script corpus and of generated programs, self-referential values, hostile histories on one interpreter, and lines fed to the real REPL and CLI are pushed through EvalString, LoadString+Run, ParseTokens (whole and in pieces) and EvalExpressions; anything reaching the harness's recover(), killing the child process, returning (nil,nil) or failing to print is a violation.",
+         "Names that end, block or leave the process by design are not called; honest resource exhaustion is inconclusive (step budget); inputs beyond the enumerated lengths (e.g. a million nested brackets) are not explored.", "DESIGN.md §4.C01"),
 }
 
 NA_REASON = {}
